@@ -13,6 +13,7 @@ import (
 	"os"
 	"os/exec"
 	"os/signal"
+	"os/user"
 	"path/filepath"
 	"strconv"
 	"strings"
@@ -40,6 +41,7 @@ type ChildSpec struct {
 	IgnoreSignals      bool // TERM and INT are ignored
 	Forks              int  // background children in the same process group
 	ForksIgnoreSignals bool
+	AsUser             bool // the task command names a user (the one the executor itself runs as)
 }
 
 type TransitionSpec struct {
@@ -360,9 +362,15 @@ func main() {
 	// the wrapping shell is the process group leader; the "device" is its child, as with real task commands
 	value := fmt.Sprintf("echo \"wrapper $$\" >> %s/pids; %s --child; exit $?", plan.Dir, self)
 	none := "none"
+	var asUser *string
+	if plan.Child.AsUser {
+		if u, err := user.Current(); err == nil {
+			asUser = &u.Username
+		}
+	}
 	tci := common.TaskCommandInfo{
 		CommandInfo: common.CommandInfo{
-			Shell: &shell, Value: &value, Stdout: &none, Stderr: &none,
+			Shell: &shell, Value: &value, Stdout: &none, Stderr: &none, User: asUser,
 			Env: []string{
 				"VERIF_DIR=" + plan.Dir,
 				fmt.Sprintf("VERIF_IGN=%d", b2i(plan.Child.IgnoreSignals)),
@@ -386,12 +394,12 @@ func main() {
 	data, _ := json.Marshal(&tci)
 	taskID := mesos.TaskID{Value: "verif-task-1"}
 	ti := mesos.TaskInfo{
-		Name:    "repo/tasks/verifclass@rev#verif-task-1",
-		TaskID:  taskID,
-		AgentID: mesos.AgentID{Value: "agent-1"},
+		Name:     "repo/tasks/verifclass@rev#verif-task-1",
+		TaskID:   taskID,
+		AgentID:  mesos.AgentID{Value: "agent-1"},
 		Executor: &mesos.ExecutorInfo{ExecutorID: mesos.ExecutorID{Value: "exec-1"}},
-		Data:    data,
-		Labels:  &mesos.Labels{Labels: []mesos.Label{{Key: "environmentId", Value: sp(envId.String())}, {Key: "detector", Value: sp("TST")}}},
+		Data:     data,
+		Labels:   &mesos.Labels{Labels: []mesos.Label{{Key: "environmentId", Value: sp(envId.String())}, {Key: "detector", Value: sp("TST")}}},
 	}
 
 	sendStatus := func(_ uid.ID, st mesos.TaskState, msg string) {
